@@ -733,7 +733,8 @@ class ModuleEnv:
             return g_(eng.need_int(vals[1], st, node).t)
         if name in ('ufi', 'ube'):      # uninterpreted functions from opaque elements to Int / Bool
             from .sorts import ELEM
-            xs = [coerce(v.val if isinstance(v, VOpt) else v, 'elem').t for v in vals[1:]]
+            _i2e = z3.Function('int2elem', z3.IntSort(), ELEM)      # integer arguments (positions) enter as elements, as in ufe
+            xs = [_i2e(v.t) if isinstance(v, VInt) else coerce(v.val if isinstance(v, VOpt) else v, 'elem').t for v in vals[1:]]
             rng = z3.IntSort() if name == 'ufi' else z3.BoolSort()
             f = z3.Function(name + '_' + vals[0].py, *([ELEM] * len(xs) + [rng]))
             return VInt(f(*xs)) if name == 'ufi' else VBool(f(*xs))
